@@ -209,6 +209,10 @@ func runC15(cx *Ctx, r *Report) {
 	r.requireCount("add-guard", 4)
 	r.requireCount("pairing", 4)
 	r.requireCount("owner-guard", 4)
+	// after a restart the counters must still be above every id in use (rule shared with C12)
+	if n := cx.importCountersRule(r, []string{"mt"}, "sequence-restored-above-ids"); n < 1 {
+		r.toolErr("no counting import counter found in mt InitGenesis (the token sequence confirmed)")
+	}
 	r.requireCount("sequence-grows", 2)
 }
 
